@@ -61,6 +61,8 @@ def _ctc_lists(names, xor=False, reqs=False):
 
 
 CAR5 = M(F('Fa', [R(1, 1, [F('Bb')]), R(0, 1, [F('Dc')]), R(0, 1, [F('Ad', [R(1, 1, [F('Ee')])])])]))
+DEEP1 = M(F('Fa', [R(1, 1, [F('Bb', [R(1, 1, [F('Ee')]), R(0, 1, [F('Gg')])]), F('Dc')])]))
+DEEP2 = M(F('Fa', [R(1, 2, [F('Bb', [R(1, 1, [F('Ee', [R(0, 1, [F('Hh')])])])]), F('Dc', [R(1, 1, [F('Gg'), F('Ii')])])])]))
 CAR5G = M(F('Fa', [R(1, 1, [F('Bb')]), R(1, 1, [F('Gp', [R(1, 3, [F('Dc'), F('Ad'), F('Ee')])])])]))
 
 
@@ -80,7 +82,7 @@ def cases(tier, seed):
     n = 3 if tier == 'quick' else 4
     structs = list(sp.structures_upto(n))
     # ---- FeatureIDE
-    fide_models = [m for m in structs if fide_fragment(m)]
+    fide_models = [m for m in structs if fide_fragment(m)] + [DEEP1, DEEP2]
     fide_models += [rt.deviation(rt.deviation(CAR5, 2, ('abstract', None)), 0, ('abstract', None)), rt.deviation(CAR5, 1, ('name', 'a <b> & "c"'))]
     fide_models += [_with(CAR5, ts) for ts in _ctc_lists(('Bb', 'Dc', 'Ad', 'Ee'))]
     cover = [_key(fide, c) for c in fide.covering_choices()]
@@ -90,7 +92,7 @@ def cases(tier, seed):
         for k in (full if (rich and tier == 'thorough') or (rich and i % 4 == 0) else cover):
             yield ('FIDE', m, k)
     # ---- FaMa XML
-    fama_models = structs + [_with(CAR5, ts) for ts in _ctc_lists(('Bb', 'Dc', 'Ad', 'Ee'), reqs=True)[-2:-1]]
+    fama_models = structs + [DEEP1, DEEP2] + [_with(CAR5, ts) for ts in _ctc_lists(('Bb', 'Dc', 'Ad', 'Ee'), reqs=True)[-2:-1]]
     fama_models.append(_with(CAR5G, [('REQUIRES', 'Bb', 'Dc'), ('EXCLUDES', 'Ad', 'Ee'), ('REQUIRES', 'Ee', 'Bb')]))
     fama_models.append(_with(CAR5G, [('REQUIRES', 'Bb', 'Dc'), ('EXCLUDES', 'Ad', 'Ee'), ('REQUIRES', 'Bb', 'Dc')]))
     casey = M(F('Fa', [R(0, 1, [F('Cache')]), R(0, 1, [F('cache')]), R(0, 1, [F('Disk')]), R(0, 1, [F('disk')])]))
@@ -99,7 +101,7 @@ def cases(tier, seed):
         for ci in range(len(FAMA_CHOICES)):
             yield ('FAMA', m, (ci,))
     # ---- AFM
-    afm_models = [m for m in structs if afm_fragment(m) and sh.size(m) > 1]
+    afm_models = [m for m in structs if afm_fragment(m) and sh.size(m) > 1] + [DEEP1, DEEP2]
     afm_models += [_with(CAR5, ts) for ts in _ctc_lists(('Bb', 'Dc', 'Ad', 'Ee'), reqs=True)]
     for av in afm_attr_alphabet():
         afm_models.append(rt.deviation(CAR5, 1, ('attr', av)))
@@ -116,7 +118,7 @@ def cases(tier, seed):
     for i in range(len(AFM_MUST_RAISE)):
         yield ('AFMX', i)
     # ---- Glencoe
-    glen_models = [m for m in structs if glencoe.in_fragment(m)]
+    glen_models = [m for m in structs if glencoe.in_fragment(m)] + [DEEP1, DEEP2]
     glen_models += [_with(CAR5G, ts) for ts in _ctc_lists(('Bb', 'Dc', 'Ad', 'Ee'), xor=True)]
     cover = [_key(glencoe, c) for c in glencoe.covering_choices()]
     full = [_key(glencoe, c) for c in glencoe.all_choices()]
